@@ -525,12 +525,14 @@ class simplify_chained_calls(FuncADLNodeTransformer):
         "Do the lookup for the dict. Returns None if the key can't be resolved"
         if not all(isinstance(k, ast.Constant) for k in v.keys):
             return None
+        # A later entry of a dictionary display overrides an earlier one with the same key
+        found = None
         for index, value in enumerate(v.keys):
             assert isinstance(value, ast.Constant)
             if value.value == s:
-                return copy.deepcopy(v.values[index])
+                found = v.values[index]
 
-        return None
+        return copy.deepcopy(found) if found is not None else None
 
     def visit_Subscript_Of_First(self, first: ast.expr, s):
         """
